@@ -144,6 +144,7 @@ def main(argv=None):
     for case, fname, cfg, opts in raw:
         opts = dict(opts)
         opts.setdefault('timeout_ms', 60000 if a.tier == 'quick' else 300000)
+        opts.setdefault('job_timeout_s', 600 if a.tier == 'quick' else 900)
         if case not in seen_case:
             seen_case.add(case)
             opts['profile'] = True
